@@ -377,10 +377,6 @@ func payloadIndex(pl kmip.OperationPayload) (int, int32) {
 				return int(i), s
 			}
 		}
-	case *payloads.DiscoverVersionsRequestPayload:
-		if len(p.ProtocolVersion) == 1 {
-			return int(p.ProtocolVersion[0].ProtocolVersionMajor) - 1000, p.ProtocolVersion[0].ProtocolVersionMinor
-		}
 	}
 	return -1, -1
 }
@@ -528,9 +524,10 @@ func (r *bReq) message(serial int32) *kmip.RequestMessage {
 		}
 		switch {
 		case it.disc:
-			bi.RequestPayload = &payloads.DiscoverVersionsRequestPayload{
-				ProtocolVersion: []kmip.ProtocolVersion{{ProtocolVersionMajor: int32(1000 + i), ProtocolVersionMinor: serial}},
-			}
+			// a plausible request (the library is free to validate it): the first 0..2 versions of the live default
+			// set. The handler of a routed DiscoverVersions finds its item through the payload pointer (payloadReg).
+			d := liveDefaultVersions()
+			bi.RequestPayload = &payloads.DiscoverVersionsRequestPayload{ProtocolVersion: append([]kmip.ProtocolVersion{}, d[:min(i%3, len(d))]...)}
 		case it.pk == 'a':
 			bi.RequestPayload = &payloads.ActivateRequestPayload{UniqueIdentifier: fmt.Sprintf("item-%d-of-%d", i, serial)}
 		case it.pk == 'g':
@@ -811,6 +808,14 @@ func batchCase(ctx *Ctx, r *bReq, origin string) {
 		if !r.accepted() {
 			ctx.Res.Count("batch.rejected")
 		}
+		for i := range r.items {
+			if b := r.items[i].idBytes(); len(b) != 0 && len(b) != 4 {
+				ctx.Res.Count("batch.id=other-length")
+			}
+			if r.items[i].pk != 0 {
+				ctx.Res.Count("batch.kind=typed")
+			}
+		}
 	}
 }
 
@@ -1016,6 +1021,7 @@ func runBatch(ctx *Ctx) {
 		}
 		batchCase(ctx, r, "")
 	}) {
+		replayBatchExtras(ctx)
 		return
 	}
 	// exhaustive: every word over the outcome alphabet x option x version ok x count ok x ids
@@ -1035,6 +1041,14 @@ func runBatch(ctx *Ctx) {
 			n = 5 + r.Intn(36)
 		}
 		batchCase(ctx, randomReq(r, n, 1), "random")
+	}
+	// impl-side only: item middlewares around the batch loop; handleMessageError through the other entry points
+	runBatchMw(ctx)
+	runBatchEntryPoints(ctx)
+	for _, c := range []string{"batch.rejected", "batch.mw.exhaustive", "batch.mw.random", "batch.http", "batch.nilreq", "batch.id=other-length", "batch.kind=typed"} {
+		if ctx.Res.Distribution[c] < 2 {
+			ctx.Res.Fail(fmt.Sprintf("batch: input class %s has only %d cases", c, ctx.Res.Distribution[c]))
+		}
 	}
 }
 
